@@ -18,9 +18,9 @@ MC_Leads == {
     [text |-> "x--y",  parse |-> "opaque", coef |-> 0,  body |-> ""],
     [text |-> "a-y",   parse |-> "opaque", coef |-> 0,  body |-> ""] }
 
-MC_Bodies == {"x", "y", "x*y", "x/y", "2"}
+MC_Bodies == {"x", "y", "x*y", "x/y", "y/x", "2"}
 \* every accepted two-factor shape: name*name, name/name, number*name, number/name, name/number, name*number
-MC_BodiesAll == {"x", "y", "x*y", "x/y", "2", "2*x", "6/y", "x/2", "x*2"}
+MC_BodiesAll == {"x", "y", "x*y", "y*x", "x/y", "y/x", "2", "2*x", "6/y", "x/2", "x*2"}
 MC_JoinElems == {"x", "+x", "-x", " y ", "-x*y", "+a*(b+c)", "-(x-y)", "+ 2"}
 
 MC_SignsAll == AllSignForms0
